@@ -11,8 +11,10 @@ Open Scope N_scope.
 (** For every history of writes, backup runs and restarts on a new store and an empty backup
     location, if an existing backup file is reopened for APPENDING (whichever file name the cursor is
     read from), loading the backup file yields, for every key, exactly what the source held when the
-    last backup run that returned started. *)
-Theorem C20_restore : forall v m0 sid ops, v_reopen v = MAppend ->
+    last backup run that returned started.  Histories may contain runs during which a writer commits
+    ([OBackupConc], Badger's dump being a snapshot) and environment steps on the id file; [plain]
+    only excludes rsync-mode ticks and delete-all, which have their own theorems below. *)
+Theorem C20_restore : forall v m0 sid ops, v_reopen v = MAppend -> forallb plain ops = true ->
   restore_ok (run v ops (init v m0 sid [])).
 Proof. exact restore_append. Qed.
 Print Assumptions C20_restore.
@@ -21,8 +23,8 @@ Print Assumptions C20_restore.
     the restored view is the source's view after the prefix [h1]. *)
 Theorem C20_restore_explicit : forall v m0 sid h1 h2,
   v_reopen v = MAppend ->
-  forallb (fun o => negb (is_env o)) h1 = true ->
-  forallb (fun o => negb (is_backup o)) h2 = true ->
+  forallb (fun o => negb (is_env o) && plain o) h1 = true ->
+  forallb (fun o => negb (is_backup o) && plain o) h2 = true ->
   let st1 := run v h1 (init v m0 sid []) in
   let st := run v (h1 ++ OBackup :: h2) (init v m0 sid []) in
   exists file, fs_get (s_fs st) FKv = Some (DEntries file) /\
@@ -35,14 +37,15 @@ Print Assumptions C20_restore_explicit.
     every variant, from any state. *)
 Theorem C20_foreign_step : forall v st o, is_env o = false ->
   (exists b, fs_get (s_fs st) FStorageId = Some (DBytes b) /\ b <> s_store_id st) ->
-  s_fs (fst (step v st o)) = s_fs st /\ s_store_id (fst (step v st o)) = s_store_id st
+  s_fs (fst (step v st o)) = s_fs st
+  /\ (is_delete o = false -> s_store_id (fst (step v st o)) = s_store_id st)
   /\ s_snap (fst (step v st o)) = s_snap st /\ snd (step v st o) <> R_RETURNED.
 Proof. exact foreign_step. Qed.
 Print Assumptions C20_foreign_step.
 
 (** ... hence for every history of hub steps from such a state. *)
 Theorem C20_foreign : forall v ops st,
-  forallb (fun o => negb (is_env o)) ops = true ->
+  forallb (fun o => negb (is_env o) && negb (is_delete o)) ops = true ->
   (exists b, fs_get (s_fs st) FStorageId = Some (DBytes b) /\ b <> s_store_id st) ->
   s_fs (run v ops st) = s_fs st /\ s_snap (run v ops st) = s_snap st.
 Proof. exact foreign_never_written. Qed.
@@ -56,6 +59,49 @@ Theorem C20_foreign_any_history : forall v ops st,
   foreign_ok (s_store_id st) (loc_id (s_fs st)) ops (fst (trace v ops st)) = true.
 Proof. exact trace_foreign_ok. Qed.
 Print Assumptions C20_foreign_any_history.
+
+(** Store.Delete ("delete all datasets") gives the emptied store a new identity: if the location is
+    claimed (id [b]) and the new id differs from it, every later run is refused, the location and the
+    snapshot stay what they were, and the restore statement keeps holding for the old backup. *)
+Theorem C20_delete_resets_identity : forall v m0 sid h1 m sid' h2 b,
+  v_reopen v = MAppend -> forallb plain h1 = true ->
+  loc_id (s_fs (run v h1 (init v m0 sid []))) = Some b -> b <> sid' ->
+  forallb (fun o => negb (is_env o) && negb (is_delete o)) h2 = true ->
+  let st1 := run v h1 (init v m0 sid []) in
+  let st := run v (h1 ++ ODeleteAll m sid' :: h2) (init v m0 sid []) in
+  restore_ok st /\ s_fs st = s_fs st1 /\ s_snap st = s_snap st1.
+Proof. exact restore_after_delete. Qed.
+Print Assumptions C20_delete_resets_identity.
+
+(** rsync mode: for every history of rsync-mode ticks (succeeding or failing), writes, restarts,
+    delete-all and environment steps, the copy below the location is exactly the store as it was
+    when the last tick whose rsync succeeded started. *)
+Theorem C20_restore_rsync : forall v ops m0 sid f, forallb (fun o => negb (is_native o)) ops = true ->
+  restore_ok_rsync (run v ops (init v m0 sid f)).
+Proof. intros. apply restore_rsync; [assumption | intros s; discriminate]. Qed.
+Print Assumptions C20_restore_rsync.
+
+(** The run-state machine: after a step isRunning is set only if it was set before (and the step is
+    not a restart) or the step is a tick that panicked on an invalid location - in particular a
+    failing rsync, a returned or a skipped run never leave it set ... *)
+Theorem C20_running_released : forall v st o,
+  s_running (fst (step v st o)) = true ->
+  (s_running st = true /\ is_restart_op o = false) \/ snd (step v st o) = R_REFUSED.
+Proof. exact running_released. Qed.
+Print Assumptions C20_running_released.
+
+(** ... hence along every history, under every variant, a tick is skipped only after a tick of the
+    same process panicked on an invalid location ([skip_ok] walks the per-step trace). *)
+Theorem C20_no_silent_skip : forall v ops st, s_running st = false ->
+  skip_ok false ops (fst (trace v ops st)) = true.
+Proof. intros v ops st H. apply trace_skip_ok. rewrite H. discriminate. Qed.
+Print Assumptions C20_no_silent_skip.
+
+(** The cursor file: StoreLastID writes 8 little-endian bytes, LoadLastID reads them the same way;
+    the round trip is the identity for every version below 2^64. *)
+Theorem C20_cursor_codec : forall n, n < 2 ^ 64 -> le_dec (le64_enc n) = n /\ length (le64_enc n) = 8%nat.
+Proof. intros n H. split; [now apply cursor_codec_roundtrip | apply le_enc_length]. Qed.
+Print Assumptions C20_cursor_codec.
 
 (** With the cursor written and read under the same name a restart leaves the cursor unchanged. *)
 Theorem C20_cursor_survives_restart : forall v m0 sid ops m, v_name v = NameSame ->
@@ -120,8 +166,9 @@ Proof. split; [exact refuted_readonly_reopen_name_only | exact refuted_truncate]
 Print Assumptions C20_refuted_other_repairs.
 
 (** tie to the correspondence check: agreement with the repaired model on a case implies the
-    executable spec on the implementation's observations (no side conditions) *)
-Theorem C20_agree_implies_spec : forall c, agree fixed c = true -> spec_ok c = true.
+    executable spec on the implementation's observations.  [case_wf]: a native-mode history without
+    delete-all (for those see C20_delete_resets_identity), or an rsync-mode history. *)
+Theorem C20_agree_implies_spec : forall c, case_wf c = true -> agree fixed c = true -> spec_ok c = true.
 Proof. exact agree_fixed_spec. Qed.
 Print Assumptions C20_agree_implies_spec.
 
@@ -156,3 +203,21 @@ Example C20_nonvacuous_4 :
                          (init current 10 sid [])))
   = [0; 1; 0; 2; 0; 2; 0; 0; 2; 0; 4; 0; 1].   (* 4: isRunning is still set after the refusal *)
 Proof. vm_compute. reflexivity. Qed.
+
+(** a writer commits during a run: the run's dump stops at its snapshot (cursor 24), the next quiet
+    run picks the concurrent commits up; a varint-looking cursor value round-trips *)
+Example C20_nonvacuous_5 :
+  let h := [OWrite 24 0 1 3 false; OBackupConc [(31, 0, 2, 4, false); (44, 1, 0, 1, false)]; OBackup] in
+  map x_cursor (fst (trace fixed h (init fixed 10 [49] []))) = [0; 24; 44]
+  /\ listing (kvfile (s_fs (run fixed h (init fixed 10 [49] [])))) = [(0, 1, 3, false); (0, 2, 4, false); (1, 0, 1, false)]
+  /\ le64_enc 206 = [206; 0; 0; 0; 0; 0; 0; 0] /\ le_dec (le64_enc 70000) = 70000.
+Proof. vm_compute. repeat split; reflexivity. Qed.
+(** delete-all after a run: new identity, later runs refused (then skipped), backup unchanged;
+    rsync mode: a failing tick does not leave isRunning set, the next tick copies *)
+Example C20_nonvacuous_6 :
+  map x_res (fst (trace fixed [OWrite 24 0 1 3 false; OBackup; ODeleteAll 7 [50]; OWrite 20 1 2 4 false; OBackup;
+                               ORestart 22; OBackup] (init fixed 10 [49] []))) = [0; 1; 0; 0; 2; 0; 2]
+  /\ map (fun x => (x_res x, x_running x))
+         (fst (trace fixed [OWrite 24 0 1 3 false; OBackupRsync false; OWrite 31 0 2 4 false; OBackupRsync true]
+                     (init fixed 10 [49] []))) = [(0, false); (5, false); (0, false); (1, false)].
+Proof. vm_compute. split; reflexivity. Qed.
